@@ -183,5 +183,5 @@ pub fn run(args: &[String]) {
     println!("{}", json!({"kind": "crash", "id": cases[*i]["id"], "op": cases[*i]["op"], "cb": cases[*i]["cb"],
                           "status": describe_status(*st)}));
   }
-  println!("{}", json!({"kind": "summary", "cases": n, "pair_cases": pair_n, "crashes": res.crashes.len()}));
+  println!("{}", json!({"kind": "summary", "cases": n, "pair_cases": pair_n, "crashes": res.crashes.len(), "truncated": res.truncated}));
 }
